@@ -270,21 +270,21 @@ pub fn sigma_md() -> Vec<String> {
 
 pub fn sigma_html() -> Vec<String> {
     strs(&[
-        "a", " ", "<", ">", "/", "p", "b", "&", ";", "=", "\"", "\n", "é", "<!--", "-->", "😀", ".",
+        "a", " ", "<", ">", "/", "p", "b", "&", ";", "=", "\"", "\n", "é", "<!--", "-->", "😀", ".", "\r\n",
     ])
 }
 
 pub fn sigma_typst() -> Vec<String> {
     strs(&[
         "a", " ", "\n", "#", "(", ")", "[", "]", "{", "}", "\"", "*", "_", "=", ":", ",", ".", "$",
-        "é", "let ", "show ", "set ", "x.y", "#f(", "// ", "/*", "*/", "😀", "-", "+", "1",
+        "é", "let ", "show ", "set ", "x.y", "#f(", "// ", "/*", "*/", "😀", "-", "+", "1", "\r\n",
     ])
 }
 
 pub fn sigma_lhs() -> Vec<String> {
     strs(&[
         "a", " ", "\n", ">", "\\begin{code}", "\\end{code}", "é", ".", "> x", "x = 1", "--", "😀",
-        "#", "*",
+        "#", "*", "\r\n", "\r",
     ])
 }
 
